@@ -86,3 +86,64 @@ Example C02_whole_build_example :
   exists st0 st, input_state 4 ex_mods = Ok st0 /\ collision_freeb (st_reg st0) = true /\
                  pyxis_resolve (hook_schedule []) 4 ex_mods = BOk st.
 Proof. vm_compute. eexists; eexists; repeat split; reflexivity. Qed.
+
+(** ** the GENERATED vftable structs, on the emitted text (EmitVftLayout.v) *)
+From Coq Require Import List NArith ZArith Bool String Lia.
+From PyxisModel Require Import Base Sexp Grammar SemTypes Registry Sem SemLemmas FunctionLemmas
+     VftableLemmas RustLayout Emit WholeBuild EmitReaders EmitShape EmitLayout EmitFnReaders
+     EmitFnShape EmitVftLayout.
+Import ListNotations.
+Local Open Scope string_scope.
+Local Open Scope list_scope.
+Local Open Scope N_scope.
+
+
+Theorem C02_vftable_reference_layout : forall ptr n,
+  struct_layout ptr (repeat (ptr, ptr) n) = (slot_offsets ptr 0 n, N.of_nat n * ptr, ptr).
+Proof. exact struct_layout_fnptrs. Qed.
+Print Assumptions C02_vftable_reference_layout.
+
+
+Theorem C02_generated_item_layout : forall R R' fuel owner v fs vit items,
+  vftable_item R owner v fs = Some vit -> build_item R' fuel vit = Ok items ->
+  reg_ptr R' = reg_ptr R ->
+  let ptr := reg_ptr R in
+  let n := N.of_nat (List.length fs) in
+  let tys := slot_types owner fs in
+  exists tname s checks rest efs rs,
+    path_last owner = Some tname /\ items = s :: checks ++ rest /\
+    item_kind s = Some "struct" /\ struct_name s = Some (tname +++ "Vftable") /\ struct_vis s = Some v /\
+    struct_repr s = Some (ReprAlign ptr) /\
+    struct_fields s = Some efs /\ Forall2 (slot_of_function owner) fs efs /\
+    map ef_ty efs = map type_tokens tys /\ Forall is_fnptr_type tys /\
+    map (type_sa R') tys = repeat (ptr, ptr) (List.length fs) /\
+    emitted_struct_layout (map (type_sa R') tys) s = Some (slot_layout ptr fs, n * ptr, ptr) /\
+    item_resolved vit = Some rs /\ rs_size rs = n * ptr /\ rs_align rs = ptr /\
+    emitted_struct_layout (map (type_sa R') tys) s = Some (slot_layout ptr fs, rs_size rs, rs_align rs) /\
+    size_check_shape (tname +++ "Vftable") (n * ptr) checks /\ Forall is_impl_or_const rest.
+Proof. exact vftable_item_emitted_layout. Qed.
+Print Assumptions C02_generated_item_layout.
+
+
+Theorem C02_emitted_vftable_size_align :
+  forall order ptr mods st0 st files p it0 gd td0 it r parent stm rest gfs,
+  input_state ptr mods = Ok st0 -> collision_free (st_reg st0) ->
+  pyxis_resolve order ptr mods = BOk st -> write_all st = Ok files ->
+  reg_get (st_reg st0) p = Some it0 -> it_state it0 = Unresolved gd -> gi_inner gd = GIType td0 ->
+  reg_get (st_reg st) p = Some it -> it_state it = Resolved r ->
+  path_parent p = Some parent -> parent <> [] -> alookup parent (st_modules st0) <> None ->
+  gt_stmts td0 = stm :: rest -> gs_field stm = GVftable gfs ->
+  exists tname vp vit rs fs file items s noffs,
+    path_last p = Some tname /\ vftable_path p = Some vp /\
+    reg_get (st_reg st) vp = Some vit /\ item_resolved vit = Some rs /\
+    In (out_path parent, file) files /\ file_items file = Some items /\
+    find_struct (tname +++ "Vftable") items = Some s /\
+    emitted_struct_layout (map (type_sa (st_reg st)) (slot_types p fs)) s
+    = Some (noffs, rs_size rs, rs_align rs) /\
+    size_of (st_reg st) (TRaw vp) = Some (rs_size rs) /\ align_of (st_reg st) (TRaw vp) = Some (rs_align rs) /\
+    rs_size rs = N.of_nat (List.length fs) * ptr /\ rs_align rs = ptr /\
+    (rs_size rs <> 0 -> exists c fn, In c items /\
+        read_size_check c = Some (fn, tname +++ "Vftable", rs_size rs, rs_size rs)).
+Proof. exact emitted_vftable_size_align_whole_build. Qed.
+Print Assumptions C02_emitted_vftable_size_align.
+
